@@ -95,6 +95,12 @@ def is_compound(t):
     return t[0] == "Seq" and len(t) > 1 and is_compound(t[-1])
 
 
+def _last_kind(t):
+    if isinstance(t, list) and t and t[0] == "Seq" and len(t) > 1:
+        return _last_kind(t[-1])
+    return t[0] if isinstance(t, list) and t else None
+
+
 def differs_only_in_slot_ops(base_text, ann_text, nonce=None):
     """signature of the 'annotation between a store and its load keeps the slot optimiser from cancelling the pair'
     finding: without their store / load instructions (and without the nonce's push-and-pop) the two programs are
@@ -345,7 +351,9 @@ def check_variant(base_prog, base_text, ann_prog, cfg, out, meta, nonce=None, ag
                          # the known block-structure findings re-route branches; they never add or drop a
                          # CONDITIONAL branch (which pops its operand)
                          "cond_branches_equal": ncond(base_text) == ncond(text),
-                         "wrapped_is_compound": bool(meta.get("wrapped_is_compound")),
+                         # (below version 3 an Assert is itself a conditional branch around `err`)
+                         "wrapped_is_compound": bool(meta.get("wrapped_is_compound")) or
+                         (bool(meta.get("wrapped_is_assert")) and cfg.version < 3),
                          "same_modulo_branches": same_modulo_branches(base_text, text),
                          "optimising_config": bool(cfg.scratch_slots) or (cfg.scratch_slots is None and cfg.version >= 9),
                          "differs_only_in_slot_ops": differs_only_in_slot_ops(base_text, text, nonce),
@@ -368,6 +376,7 @@ def _worker(items, base):
                     if kind in ("comment_after", "comment_before"):
                         meta["standalone_comment"] = True
                         meta["wrapped_is_compound"] = is_compound(get_at(prog["main"], path))
+                        meta["wrapped_is_assert"] = _last_kind(get_at(prog["main"], path)) in ("Assert", "AssertC")
                         meta["loop_tail"] = loop_tail(prog["main"], path)
                 if kind == "subname":
                     ann = copy.deepcopy(prog)
